@@ -500,7 +500,7 @@ impl Family for C12 {
     }
 
     fn rule() -> &'static str {
-        "one case = (endianness, write mode: writer word u8..u128, starting bit offset 0..=2W, 1-8 ops among io::Write::write / write_all of a slice of length 0, 1-7, 8, 15-17, 24, 31-33, 40, 0-40 random, 41-200, and write_bits / write_unary / flush; read mode: reader {buffered u8..u64, unbuffered} over any backend, image of 5 patterns, starting offset 0..=2W, io::Read::read into buffers of the same lengths interleaved with reads, peeks, skips). distinct_nontrivial = distinct (endianness, word or reader, bit offset inside the word / measured buffer fill, slice length (capped), op kind) signatures"
+        "one case = (endianness, write mode: writer word u8..u128, starting bit offset 0..=2W, 1-8 ops among io::Write::write / write_all of a slice of length 0, 1-7, 8, 15-17, 24, 31-33, 40, 0-40 random, 41-200, and write_bits / write_unary / flush; read mode: reader {buffered u8..u64, unbuffered} over any backend, image of 5 patterns, starting offset 0..=2W, io::Read::read into buffers of the same lengths interleaved with reads, peeks, skips). distinct_nontrivial = distinct (endianness, word or reader, bit offset inside the word / measured buffer fill, slice length (capped), op kind) signatures Scale scenarios: one slice in 250 has 256 .. 70 001 bytes; one run in 750 writes one slice / reads into one buffer of 524 287, 524 288, 524 289, 524 296, 532 291, 1 048 576 or 1 048 583 pseudo-random bytes at a bit offset 0..=2W, followed by a marker."
     }
 
     fn components() -> (Vec<&'static str>, Vec<&'static str>) {
